@@ -15,7 +15,8 @@ def build(seed=0):
     model = emg3d.Model(mgrid, rng.uniform(0.5, 2.0, mgrid.shape_cells))
     src = {'TxED-1': emg3d.TxElectricDipole((-45.0, 5.0, -150.0, 20, 5))}
     rec = {'RxEP-1': emg3d.RxElectricPoint((45.0, 15.0, -140.0, 0, 0)), 'RxEP-2': emg3d.RxElectricPoint((60.0, -35.0, -170.0, 30, 10))}
-    survey = emg3d.Survey(sources=src, receivers=rec, frequencies=[0.5, 1.0, 2.0], noise_floor=1e-15, relative_error=0.05)
+    survey = emg3d.Survey(sources=src, receivers=rec, frequencies={'f-0.5': 0.5, 'f-1': 1.0, 'f-0.25': 0.25}, noise_floor=1e-15, relative_error=0.05)
+    # frequencies named by the user (any keys are accepted): two of the names differ only after their last dot
     freqs = list(survey.frequencies.keys())
     grids = {'TxED-1': {freqs[0]: mesh(4), freqs[1]: mesh(16), freqs[2]: mesh(8)}}     # small, large, medium
     rngd = np.random.default_rng(seed + 1)
